@@ -227,3 +227,47 @@ MANIFEST_TEXT["C12"] = {
              "mechanism of a wrong answer."),
     "note": "Trusted: CPython, z3 Optimize (cross-checked by a feasibility query), pvm/exact.py.",
 }
+
+META["C08"] = {
+    "level": "exploration",
+    "rule": ("cases = pairs of contracts (shared inputs, shared outputs, both, disjoint, identical interface, and "
+             "clashing interfaces that must be refused), with duplicated / scaled / weakened terms planted across the "
+             "operands, plus the repository's stored merge; both operand orders are executed. Oracle: A_M == A_1 & A_2 "
+             "and A_M & G_M == A_M & G_1 & G_2 (each direction with the tolerance), interface = unions. Non-trivial = "
+             "merge returned; distinct = case digests."),
+    "required": ["reach:returned:shared_in", "reach:returned:shared_out", "reach:returned:disjoint",
+                 "reach:returned:same_iface", "reach:returned:shared_both", "reach:returned:corpus",
+                 "outcome:clash:IncompatibleArgsError"],
+    "assumptions": [NUM, TB],
+    "soft_s": {"quick": 200, "thorough": 2500},
+}
+MANIFEST_TEXT["C08"] = {
+    "technique": RM + "merge executed in both operand orders under a recording wrapper; exact z3 equivalence of the result with the conjunction of the operands",
+    "text": ("Exploration: every merge result is compared (both implications, with the tolerance) with the exact "
+             "conjunction of assumptions and of guarantees-under-assumptions; a refusal is accepted only when the "
+             "conjunction is unsatisfiable or the union interface is ill formed."),
+    "note": "Trusted: CPython, z3, pvm/exact.py.",
+}
+
+META["C15"] = {
+    "level": "exploration",
+    "rule": ("cases = composable / mergeable pairs, 45% with an interface-level guarantee planted in both operands "
+             "(identical, scaled, weaker, stronger) on a shared input or a kept connection variable, the rest from the "
+             "C01 and C08 families; both call orders, simplify on/off, random tactic orders. For every operand "
+             "guarantee whose variables all lie in the result's interface: A_C & G_C & viol(t) must be UNSAT; for "
+             "unconnected pairs the composition must equal the conjunction. Non-trivial = at least one "
+             "interface-level term or an exactness obligation was checked; distinct = case digests."),
+    "required": ["reach:compose:interface-level-terms-checked", "reach:merge:interface-level-terms-checked",
+                 "reach:compose:exactness-checked", "reach:compose:connected=True:simplify=True",
+                 "reach:compose:connected=False:simplify=True", "reach:compose:connected=False:simplify=False",
+                 "reach:compose:overlap:identical", "reach:compose:overlap:scaled"],
+    "assumptions": [NUM, TB, "operand guarantees are those of the constructed operands (after the constructor's "
+                    "simplification against their own assumptions)"],
+    "soft_s": {"quick": 200, "thorough": 2500},
+}
+MANIFEST_TEXT["C15"] = {
+    "technique": RM + "compose_tactics / merge executed under wrappers; per operand guarantee an exact z3 entailment query against the result",
+    "text": ("Exploration: every interface-level guarantee of either operand is checked to be entailed by the result's "
+             "assumptions and guarantees, and unconnected compositions are compared with the exact conjunction."),
+    "note": "Trusted: CPython, z3, pvm/exact.py.",
+}
